@@ -23,7 +23,9 @@ EXTENDS Integers, Sequences, FiniteSets, TLC, Json
 
 CONSTANTS MaxRules, WithFaults, EmitCases
 
-Containers == {"object", "oneof", "request", "response", "publish", "reqres-request", "reqres-reply", "upsert"}
+\* "request-raw": the request of a service method declared WITHOUT a response block (it returns a raw HTTP body;
+\* README "Services", property C16's quantifier "methods without response body")
+Containers == {"object", "oneof", "request", "request-raw", "response", "publish", "reqres-request", "reqres-reply", "upsert"}
 
 \* README "Scalar Types" table + schema.proto Field.type
 Scalars == {"string", "bool", "int32", "int64", "uint32", "uint64", "float32", "float64", "bytes", "timestamp", "date", "decimal",
@@ -109,7 +111,7 @@ InjectFault(f) ==
     /\ f \in Faults
     /\ (f = "rule-on-wrong-kind" => kind \in {"timestamp", "any", "key-id62"})
     /\ (f = "integer-without-format" => kind = "int32")
-    /\ (f \in {"method-without-request", "bad-http-method"} => container \in {"request", "response"})
+    /\ (f \in {"method-without-request", "bad-http-method"} => container \in {"request", "request-raw", "response"})
     /\ (f = "oneof-scalar-option" => container = "oneof")
     /\ (f = "enum-no-options" => kind = "enum-inline")
     /\ (f \in {"nested-array", "map-of-map"} => kind = "string")
